@@ -288,7 +288,20 @@ func c11MakeGlyph(c *explore.Ctx, full bool) *c11Spec {
 		ncomp := 1 + c.Choose(maxComp, "components")
 		var body []byte
 		var comps []glyph.ID
-		withInstr := c.Choose(3, "composite instructions") // none, empty, two bytes
+		// none, empty, two bytes (WE_HAVE_INSTRUCTIONS on every record), two bytes with the flag on the
+		// last record only, two bytes with the flag on the first record only
+		withInstr := c.Choose(5, "composite instructions")
+		flagOn := func(i int) bool {
+			switch withInstr {
+			case 0:
+				return false
+			case 3:
+				return i == ncomp-1
+			case 4:
+				return i == 0
+			}
+			return true
+		}
 		for i := 0; i < ncomp; i++ {
 			var fl uint16
 			args := []byte{byte(i), byte(2 * i)}
@@ -311,7 +324,7 @@ func c11MakeGlyph(c *explore.Ctx, full bool) *c11Spec {
 			if i+1 < ncomp {
 				fl |= 0x20
 			}
-			if withInstr > 0 {
+			if flagOn(i) {
 				fl |= 0x100
 			}
 			gid := glyph.ID(i + 1)
@@ -324,7 +337,7 @@ func c11MakeGlyph(c *explore.Ctx, full bool) *c11Spec {
 		case 1:
 			body = append(body, 0, 0)
 			instr = []byte{}
-		case 2:
+		case 2, 3, 4:
 			body = append(body, 0, 2, 0xB0, 0x01)
 			instr = []byte{0xB0, 0x01}
 		}
